@@ -84,6 +84,17 @@ def dedup_histories(results, extra):
     return list(seen.values())
 
 
+def intify(v):
+    """integral floats (e.g. the -0.0 of a scripted `set`) -> ints, so that histories stay inside the specification's integers"""
+    if isinstance(v, float) and v == int(v):
+        return int(v)
+    if isinstance(v, list):
+        return [intify(x) for x in v]
+    if isinstance(v, dict):
+        return {k: intify(x) for k, x in v.items()}
+    return v
+
+
 def ints_only(v):
     if isinstance(v, bool):
         return True
